@@ -73,11 +73,15 @@ Inductive action :=
                                                                of the meta.json it writes (upload time inside) *)
 | ADelete (side : bool) (id : N) (order : list file)          (* block.Delete; order: deleteDirRec's deletion order *)
 | AMark (side : bool) (id : N) (sz : Z)                      (* block.MarkForDeletion; sz = size of the mark *)
-| AReplicate (id : N).                                       (* ensureBlockIsReplicated origin -> target *)
+| AReplicate (id : N)                                        (* ensureBlockIsReplicated origin -> target *)
+| ARepDel (id : N) (sched : list nat) (order : list file).   (* the same, interleaved with block.Delete of the block on
+                                                               the origin: delete operation i takes effect right before
+                                                               the replicator's origin operation sched[i]; [order] as in
+                                                               ADelete. The deleter's own log is the next step (ADelete). *)
 
 (* side: false = origin bucket, true = target bucket *)
 Definition action_side (a : action) : bool :=
-  match a with AUpload s _ _ _ | ADelete s _ _ | AMark s _ _ => s | AReplicate _ => true end.
+  match a with AUpload s _ _ _ | ADelete s _ _ | AMark s _ _ => s | AReplicate _ | ARepDel _ _ _ => true end.
 
 Definition state := (bucket * bucket)%type.
 Definition side_get (st : state) (s : bool) : bucket := if s then snd st else fst st.
@@ -114,6 +118,15 @@ Definition action_ops (U : univ) (st : state) (a : action) : option (list bop * 
                          match all_some (map (replicate_phase src dst id om) ph) with Some _ => true | None => false end)
           end
       | None => None
+      end
+  | ARepDel id sched order =>
+      match replicate_phases, delete_phases with
+      | Some [RChunks; RIndex; RMeta], Some dph =>
+          match delete_ops dph (fst st) id order with
+          | Some dels => Some (repdel_ops (fst st) (snd st) id (combine sched dels))
+          | None => None
+          end
+      | _, _ => None
       end
   end.
 
@@ -154,6 +167,26 @@ Fixpoint corr_steps (U : univ) (st : state) (l : list step) : bool :=
   | s :: r => match corr_step U st s with Some st' => corr_steps U st' r | None => false end
   end.
 
+(* the two-actor action is covered by the theorems only when the deleter removes the index
+   before any chunk file and the target does not hold the index yet; otherwise there are
+   schedules that publish an incomplete block (C28_replicate_delete_race_refuted) *)
+Definition action_safe (st : state) (a : action) : bool :=
+  match a with
+  | ARepDel id _ order => index_first order && negb (bhas (snd st) (id, FIndex))
+  | _ => true
+  end.
+
+Fixpoint safe_steps (U : univ) (st : state) (l : list step) : bool :=
+  match l with
+  | [] => true
+  | s :: r =>
+      action_safe st (fst (fst (fst (fst s))))
+      && match corr_step U st s with Some st' => safe_steps U st' r | None => true end
+  end.
+
+Definition safe_case (c : case) : bool :=
+  match c with CScen U steps => safe_steps U ([], []) steps end.
+
 Definition corr_ok (c : case) : bool :=
   match c with CScen U steps => wf_univ_b U && corr_steps U ([], []) steps end.
 
@@ -179,6 +212,7 @@ Definition pred_step (st : state) (s : step) : bool * state :=
                                        (bget post (id, FMeta))
               else true
           | AMark _ id _ => if ret then bhas post (id, FDelMark) else true
+          | ARepDel id _ _ => if ret then bhas post (id, FMeta) else true
           end,
        st')
   end.
